@@ -1,0 +1,72 @@
+//go:build verif
+
+package storage
+
+import (
+	"github.com/KevoDB/kevo/pkg/memtable"
+	"github.com/KevoDB/kevo/pkg/sstable"
+)
+
+// VerifEntry is one stored version of a key as seen by the verification harness.
+type VerifEntry struct {
+	Key       []byte
+	Value     []byte
+	Seq       uint64
+	Tombstone bool
+}
+
+// VerifLayer is the logical content of one memtable or SSTable.
+type VerifLayer struct {
+	Kind    string // "active", "immutable", "sst"
+	Name    string // file path for SSTables
+	Entries []VerifEntry
+}
+
+func verifMemLayer(kind string, mt *memtable.MemTable) VerifLayer {
+	l := VerifLayer{Kind: kind}
+	it := mt.NewIterator()
+	for it.SeekToFirst(); it.Valid(); it.Next() {
+		l.Entries = append(l.Entries, VerifEntry{Key: it.Key(), Value: it.Value(), Seq: it.SequenceNumber(), Tombstone: it.IsTombstone()})
+	}
+	return l
+}
+
+func verifSSTLayer(r *sstable.Reader) VerifLayer {
+	l := VerifLayer{Kind: "sst", Name: r.FilePath()}
+	it := r.NewIterator()
+	for it.SeekToFirst(); it.Valid(); it.Next() {
+		l.Entries = append(l.Entries, VerifEntry{Key: it.Key(), Value: it.Value(), Seq: it.SequenceNumber(), Tombstone: it.IsTombstone()})
+	}
+	return l
+}
+
+// VerifLayers returns the layer stack in read-precedence order: the active memtable,
+// the pool's immutable memtables newest first, the SSTables newest first. Read-only.
+func (m *Manager) VerifLayers() []VerifLayer {
+	m.mu.RLock()
+	defer m.mu.RUnlock()
+	var out []VerifLayer
+	for i, mt := range m.memTablePool.GetMemTables() {
+		kind := "immutable"
+		if i == 0 {
+			kind = "active"
+		}
+		out = append(out, verifMemLayer(kind, mt))
+	}
+	for i := len(m.sstables) - 1; i >= 0; i-- {
+		out = append(out, verifSSTLayer(m.sstables[i]))
+	}
+	return out
+}
+
+// VerifPendingFlush returns how many immutable memtables are queued for flushing.
+func (m *Manager) VerifPendingFlush() int {
+	m.mu.RLock()
+	defer m.mu.RUnlock()
+	return len(m.immutableMTs)
+}
+
+// VerifNextSequence returns the next sequence number of the current WAL.
+func (m *Manager) VerifNextSequence() uint64 {
+	return m.getWAL().GetNextSequence()
+}
